@@ -194,15 +194,38 @@ def classify_and_run(rep, drv, rnd, d: Path, nodes, flag, want_blocker, stats, m
         rs["blocks"].append({"mode": "combinatorial", "context": {"big1": list(range(6)), "big2": list(range(6))}})
         blocker = "capExceeded"
     args = []
+    via_set = False
     for k in cli_keys:
         args += ["--context", f"{k}=" + ("/dev/null" if k == "path" else f"cli_{k}")]
     if blocker == "capExceeded":
-        if rnd.random() < 0.5:
-            rs["max_runs"] = 10
+        cap = rnd.choice([0, 0, 1, 10, 35])          # boundary caps: zero (nothing may run at all) … one below the 36 planned runs
+        stats.setdefault("caps", {}).setdefault(str(cap), 0)
+        stats["caps"][str(cap)] += 1
+        r = rnd.random()
+        if r < 0.4:
+            rs["max_runs"] = cap
+        elif r < 0.75:
+            args += ["--run-space-max-runs", str(cap)]
         else:
-            args += ["--run-space-max-runs", "10"]
-    args += FLAG_ARGS[flag]
-    rs_in_file = rs is not None and rnd.random() < 0.35
+            # the same cap given as a configuration override
+            rs["max_runs"] = 100000
+            args += ["--set", f"run_space.max_runs={cap}"]
+            via_set = True
+    flag_args = FLAG_ARGS[flag]
+    if flag == "rsDryRun" and rs is not None:
+        # the same request spelled in the file, or as an override of the file
+        r = rnd.random()
+        if r < 0.25:
+            rs["dry_run"] = True
+            flag_args = []
+            via_set = True          # (keeps the run space inline)
+        elif r < 0.5:
+            rs["dry_run"] = False
+            flag_args = ["--set", "run_space.dry_run=true"]
+            via_set = True
+    args += flag_args
+    stats["spelled_via_set_or_file"] = stats.get("spelled_via_set_or_file", 0) + (1 if via_set else 0)
+    rs_in_file = rs is not None and not via_set and rnd.random() < 0.35
     if rs_in_file:
         # the same run space given through --run-space-file (as a bare block or under a run_space: key)
         (d / "rs_file.yaml").write_text(yaml.safe_dump(rs if rnd.random() < 0.5 else {"run_space": rs}, sort_keys=False))
@@ -211,7 +234,15 @@ def classify_and_run(rep, drv, rnd, d: Path, nodes, flag, want_blocker, stats, m
             rnd.shuffle(args_groups := [args[:2], args[2:]])
             args = args_groups[0] + args_groups[1]
     trace_to_file = rnd.random() < 0.5              # a trace *file* must not exist either when nothing was executed
-    cfg = base_cfg(d, nodes, None if rs_in_file else rs, trace_to_file=trace_to_file)
+    yaml_nodes = nodes
+    if unknown_proc and rnd.random() < 0.5:
+        # the file names a known processor; an override replaces it by an unknown one: the invocation is as invalid as before
+        k = next(i for i, n in enumerate(nodes) if n["processor"] == "NoSuchProcessorAnywhere")
+        yaml_nodes = copy.deepcopy(nodes)
+        yaml_nodes[k] = {"processor": "TOp0"}
+        args = args + ["--set", f"pipeline.nodes.{k}.processor=NoSuchProcessorAnywhere"]
+        stats["spelled_via_set_or_file"] = stats.get("spelled_via_set_or_file", 0) + 1
+    cfg = base_cfg(d, yaml_nodes, None if rs_in_file else rs, trace_to_file=trace_to_file)
     stats["trace_to_file"] = stats.get("trace_to_file", 0) + (1 if trace_to_file else 0)
     stats["run_space_file"] = stats.get("run_space_file", 0) + (1 if rs_in_file else 0)
     clean(d)
@@ -292,10 +323,33 @@ def run(tier: str) -> int:
     n_cases = 120 if tier == "quick" else 1500
     stats = {"invocations": 0, "by_class": {}, "executed": 0, "failing": 0}
     mism, samples = [], []
+    def directed(d):
+        """Invocations that are part of every run, whatever the seed: one per documented blocker, on minimal pipelines."""
+        sink = str(d / "sink.txt")
+        snk = {"processor": "TSink", "parameters": {"path": sink}}
+        return [
+            ([{"processor": "TSourceDef"}, {"processor": 'template:"{ipk1}_v2":ipk1'}, dict(snk)], "none_", ("missingKey", "ipk1")),
+            ([{"processor": "TSourceDef"}, {"processor": "rename:ipk2:ipk2x"}, {"processor": "TOp0"}, dict(snk)], "none_", ("missingKey", "ipk2")),
+            ([{"processor": "TSourceDef"}, {"processor": "TOp1"}, dict(snk)], "none_", ("missingKey", None)),
+            ([{"processor": "TSourceDef"}, {"processor": "TOp1"}, dict(snk)], "validate", ("missingKey", None)),
+            ([{"processor": "TSourceDef"}, dict(snk)], "none_", ("capExceeded", None)),
+            ([{"processor": "TSourceDef"}, dict(snk)], "none_", ("runSpaceInvalid", None)),
+            ([{"processor": "TSourceDef"}, {"processor": "TProbe"}, dict(snk)], "none_", ("invalidConfig", None)),
+            ([{"processor": "TSourceDef"}, {"processor": "NoSuchProcessorAnywhere"}, dict(snk)], "dryRun", ("invalidConfig", None)),
+            ([{"processor": "TSourceDef"}, {"processor": "TOp0"}, dict(snk)], "dryRun", ("none_", None)),
+            ([{"processor": "TSourceDef"}, {"processor": "TOp0"}, dict(snk)], "rsDryRun", ("none_", None)),
+            ([{"processor": "TSourceDef"}, {"processor": "TOp0"}, dict(snk)], "none_", ("none_", None)),
+        ]
     if drv is not None:
-        for i in range(n_cases):
+        with rt.tempdir() as d0:
+            n_directed = len(directed(d0))
+        for i in range(n_directed + n_cases):
             with rt.tempdir() as d:
-                nodes, flag, want = gen_invocation(rnd, d, i)
+                if i < n_directed:
+                    nodes, flag, want = directed(d)[i]
+                    stats["directed"] = stats.get("directed", 0) + 1
+                else:
+                    nodes, flag, want = gen_invocation(rnd, d, i)
                 try:
                     pub = classify_and_run(rep, drv, rnd, d, nodes, flag, want, stats, mism)
                 except RuntimeError as exc:
